@@ -110,6 +110,8 @@ def decision_case(draw):
     if kind in ("isobaric", "isotension_hydro"):
         case["cell_old"] = draw(cell_st())
         case["cell_new"] = draw(cell_st())
+        if draw(st.integers(0, 3)) == 0:  # a deformation keeps the handedness of the lattice
+            case["cell_old"]["lh"] = case["cell_new"]["lh"] = True
         case["N"] = draw(st.integers(0, 50))
         case["P"] = draw(st.one_of(st.just(0.0), fl(-0.5, 0.5), log10_floats(-6, 0)))
     if kind.startswith("gc"):
@@ -122,7 +124,10 @@ def decision_case(draw):
 
 # ------------------------------------------------------------------ oracle + execution
 def _cell(c):
-    return np.array(c["m"], dtype=float)
+    m = np.array(c["m"], dtype=float)
+    if c.get("lh"):
+        m = m[[1, 0, 2]]  # left-handed lattice (negative determinant, positive volume): valid in ASE
+    return m
 
 
 def build_decision(case, u):
@@ -225,7 +230,7 @@ def run_decision(case):
     _, _, logA0, _ = build_decision(case, 0.5)
     u = choose_u(case["u"], logA0)
     crit, ctx, logA, stub = build_decision(case, u)
-    labels = [case["kind"]]
+    labels = [case["kind"]] + (["left-handed-cell"] if (case.get("cell_old") or {}).get("lh") else [])
     x = case["x"]
     logu = math.log(u) if u > 0 else -math.inf
     band = stub.band
@@ -296,6 +301,8 @@ def tension_case(draw):
     else:
         case["cell_old"] = draw(cell_st())
         case["cell_new"] = draw(cell_st())
+        if draw(st.integers(0, 3)) == 0:  # a deformation keeps the handedness of the lattice
+            case["cell_old"]["lh"] = case["cell_new"]["lh"] = True
         case["D1"] = mat(1.0)
         case["D2"] = mat(1.0)
         case["a"] = draw(fl(-1, 1))
@@ -352,7 +359,7 @@ def run_tension(case):
     mode, T, n, P = case["mode"], case["T"], case["N"], float(case["P"])
     crit = K.IsotensionCriteria()
     iso = K.IsobaricCriteria()
-    labels = ["tension:" + mode]
+    labels = ["tension:" + mode] + (["left-handed-cell"] if (case.get("cell_old") or {}).get("lh") else [])
     out = {"labels": labels, "nontrivial": True, "violation": None}
     try:
         if mode == "work":
